@@ -247,12 +247,10 @@ class G:
                                     ("float", "1.5", 1), ("list", "[]", 0),
                                     ("types.MappingProxyType[str, int]", "types.MappingProxyType({'a': 1})", 0), ("ENUMCLS", "", 0), ("ENUMCLS", "", 0)])
                 if t == "ENUMCLS":
-                    # the factory is the rendered name of a schema class: it must denote that class (module scope only:
-                    # a local class as factory is the known finding defaultdict-factory-local-class, kept in the identity family)
-                    if self.defloc == "module":
-                        t, v, _ = self.enum_cls()
-                        return f"DefaultDict[{kt}, {t}]", f"collections.defaultdict(lambda: {v}, {{{kv}: {v}}})", False
-                    t, v = "int", "1"
+                    # the factory is a reference to a schema class: it must denote that class, at module scope (module.qualname chain)
+                    # and inside a function (clean_id alias; since /repo d8ae0ee the factory goes through get_type_name_identifier)
+                    t, v, _ = self.enum_cls()
+                    return f"DefaultDict[{kt}, {t}]", f"collections.defaultdict({t}, {{{kv}: {v}}})", False
                 fac = "list" if t.startswith(("List", "list")) else "dict" if t.startswith(("Dict", "types.")) else t
                 return f"DefaultDict[{kt}, {t}]", f"collections.defaultdict({fac}, {{{kv}: {v}}})", False
             if k == "OrderedDict":
@@ -667,7 +665,7 @@ def _cls_src(kind: str, name: str, extra: int, indent: str = "") -> tuple[str, s
 def gen_identity_schema(rng: random.Random, idx: int, template: str | None = None) -> dict:
     t = template or rng.choice(["same-qualname", "same-qualname", "clean-id", "functional-local", "bogus-module", "rebound",
                                 "mappingproxy", "defaultdict-local", "shadow-class", "shadow-class", "shadow-module",
-                                "control-local", "control-local", "make-dataclass-local"])
+                                "control-local", "control-local", "make-dataclass-local", "generic-serializable-local"])
     module = f"c17i_{idx}"
     kind = rng.choice(["dc-mixin", "dc-plain", "enum", "intenum", "namedtuple", "pathlike"])
     pt, pv = rng.choice(POSITIONS)
@@ -753,6 +751,33 @@ def gen_identity_schema(rng: random.Random, idx: int, template: str | None = Non
         val = _cls_src(k, "DL", 1)[1]
         names = ["L1"]
         pt, pv = "DefaultDict[str, {c}]", "collections.defaultdict({c}, {{'k': {v}}})"
+    elif t == "generic-serializable-local":
+        # the type arguments of a GenericSerializableType are pasted into the generated code as a list of type references
+        # (pack.py pack_generic_serializable_type / unpack.py unpack_generic_serializable_type): a class defined in a function,
+        # alone or inside a generic alias; the round trip demands that _deserialize receives the very class (GS.__eq__)
+        k = rng.choice(["dc-mixin", "enum", "dc-plain"])
+        L.append("GT = TypeVar('GT')")
+        L.append("class GS(Generic[GT], GenericSerializableType):\n"
+                 "    def __init__(self, v, ts=()):\n        self.v = v\n        self.ts = tuple(ts)\n"
+                 "    def _serialize(self, types):\n        return [self.v, len(types)]\n"
+                 "    @classmethod\n    def _deserialize(cls, value, types):\n        return cls(value[0], types)\n"
+                 "    def __eq__(self, o):\n        return type(o) is GS and o.v == self.v and o.ts == self.ts\n"
+                 "    def __repr__(self):\n        return f'GS({self.v!r}, {self.ts!r})'")
+        where = rng.choice(["function", "function", "module"])
+        tags.add("gs-arg:" + where)
+        if where == "function":
+            L.append("def mk():")
+            L.append(_cls_src(k, "DL", 1, "    ")[0])
+            L.append("    return DL")
+            L.append("L1 = mk()")
+        else:
+            L.append(_cls_src(k, "DL", 1)[0])
+            L.append("L1 = DL")
+        val = ""
+        names = ["L1"]
+        pt, pv = rng.choice([("GS[{c}]", "GS(1, ({c},))"), ("GS[List[{c}]]", "GS(1, (List[{c}],))"), ("List[GS[{c}]]", "[GS(2, ({c},))]"),
+                             ("Optional[GS[{c}]]", "GS(3, ({c},))")])
+        tags.add("gs-pos:" + pt)
     elif t == "shadow-class":
         sn = rng.choice(SHADOW_CLASS_NAMES)
         tags.add("shadow:" + sn)
@@ -781,7 +806,7 @@ def gen_identity_schema(rng: random.Random, idx: int, template: str | None = Non
     ident = []
     for i, n in enumerate(names):
         ft = pt.format(c=n)
-        if t == "defaultdict-local":
+        if t in ("defaultdict-local", "generic-serializable-local"):
             fv = pv.format(c=n, v=val.format(n=n))
         else:
             fv = pv.format(v=val.format(n=n))
@@ -807,6 +832,8 @@ def gen_identity_schema(rng: random.Random, idx: int, template: str | None = Non
         tags.add("id-entry:mixin")
     if names:
         L.append(f"CLASSES.extend([{', '.join(names)}])")
+    if t == "generic-serializable-local":
+        L.append("ROUNDTRIP.append(H)")
     if not codec:
         L += ident
     src = PRELUDE + "\n".join(L) + "\n"
